@@ -201,6 +201,9 @@ Section CLONE.
     safeK CI (copy_file (src ++ rel ++ [n]) (dst ++ rel ++ [n]) k).
   Proof.
     intros rel n k Hk. unfold copy_file. destruct (rel_path_facts rel n) as [Hu Hne].
+    (* the three stat calls of the destination: pure, results ignored *)
+    apply safe_pure_all; [reflexivity|]. intros _. apply safe_pure_all; [reflexivity|]. intros _.
+    apply safe_pure_all; [reflexivity|]. intros _.
     apply safe_pure; [reflexivity| |intro e0; apply Hk]. intros f Hi.
     unfold exec_res. cbn [exec].
     destruct (get f (src ++ rel ++ [n])) as [[c|]|] eqn:G; cbn [snd]; try apply Hk.
@@ -312,22 +315,34 @@ Section CLONE.
         apply IH; [eapply relok_prefix; eauto|]. intros [u|e]; auto. destruct e; auto.
   Qed.
 
-  Lemma safe_copytree : forall fuel rel (k : fres bool -> prog A),
-    relok rel -> (forall r, safeK CI (k r)) -> safeK CI (copytree_p fuel (src ++ rel) (dst ++ rel) k).
+  Lemma safe_copytree : forall fuel top rel (k : fres bool -> prog A),
+    relok rel -> (forall r, safeK CI (k r)) -> safeK CI (copytree_p fuel top (src ++ rel) (dst ++ rel) k).
   Proof.
-    induction fuel as [|fuel IH]; intros rel k Hr Hk.
+    induction fuel as [|fuel IH]; intros top rel k Hr Hk.
     - cbn [copytree_p]. apply safe_pure_all; [reflexivity|]. intros [v|e]; [|apply Hk]. destruct v; try apply Hk.
       apply safe_makedirs; auto. intros [u|e]; [|apply Hk].
       generalize false as errs. induction l as [|n ns IHn]; intro errs.
-      + apply safe_pure_all; [reflexivity|]. intros [v1|e1]; [|apply Hk].
-        apply safe_pure_all; [reflexivity|]. intros [v2|e2]; apply Hk.
+      + assert (Hcs : safeK CI (Do (CMeta (dst ++ rel)) (fun m1 => match m1 with
+                          | FErr _ => k (FOk true)
+                          | FOk _ => Do (CMeta (dst ++ rel)) (fun m2 => match m2 with FErr _ => k (FOk true) | FOk _ => k (FOk errs) end)
+                          end))).
+        { apply safe_pure_all; [reflexivity|]. intros [v1|e1]; [|apply Hk].
+          apply safe_pure_all; [reflexivity|]. intros [v2|e2]; apply Hk. }
+        destruct top; [|exact Hcs].
+        apply safe_pure_all; [reflexivity|]. intros [v0|e0]; [exact Hcs|apply Hk].
       + apply safe_pure_all; [reflexivity|]. intro rk. destruct (is_dir_r rk); [apply IHn|].
         rewrite <- !app_assoc. apply safe_copy_file. intros [u1|e1]; apply IHn.
     - cbn [copytree_p]. apply safe_pure_all; [reflexivity|]. intros [v|e]; [|apply Hk]. destruct v; try apply Hk.
       apply safe_makedirs; auto. intros [u|e]; [|apply Hk].
       generalize false as errs. induction l as [|n ns IHn]; intro errs.
-      + apply safe_pure_all; [reflexivity|]. intros [v1|e1]; [|apply Hk].
-        apply safe_pure_all; [reflexivity|]. intros [v2|e2]; apply Hk.
+      + assert (Hcs : safeK CI (Do (CMeta (dst ++ rel)) (fun m1 => match m1 with
+                          | FErr _ => k (FOk true)
+                          | FOk _ => Do (CMeta (dst ++ rel)) (fun m2 => match m2 with FErr _ => k (FOk true) | FOk _ => k (FOk errs) end)
+                          end))).
+        { apply safe_pure_all; [reflexivity|]. intros [v1|e1]; [|apply Hk].
+          apply safe_pure_all; [reflexivity|]. intros [v2|e2]; apply Hk. }
+        destruct top; [|exact Hcs].
+        apply safe_pure_all; [reflexivity|]. intros [v0|e0]; [exact Hcs|apply Hk].
       + apply safe_pure; [reflexivity| |intro e0; cbn [is_dir_r]; rewrite <- !app_assoc; apply safe_copy_file; intros [u1|e1]; apply IHn].
         intros f Hi. rewrite exec_res_stat. cbn [snd].
         destruct (is_dir_r (FOk (RKind (kind_of (get f ((src ++ rel) ++ [n])))))) eqn:Ed.
@@ -574,10 +589,10 @@ Section EXISTS.
     intros [u|e]; auto. destruct e; auto.
   Qed.
 
-  Lemma safe_copytree_exists : forall fuel src dst (k : fres bool -> prog A),
-    get f0 dst <> None -> (forall e, safeK Inv0 (k (FErr e))) -> safeK Inv0 (copytree_p fuel src dst k).
+  Lemma safe_copytree_exists : forall fuel top src dst (k : fres bool -> prog A),
+    get f0 dst <> None -> (forall e, safeK Inv0 (k (FErr e))) -> safeK Inv0 (copytree_p fuel top src dst k).
   Proof.
-    intros fuel src dst k Hex Hk. destruct fuel; cbn [copytree_p];
+    intros fuel top src dst k Hex Hk. destruct fuel; cbn [copytree_p];
       (apply safe_pure_all; [reflexivity|]; intros [v|e]; [|apply Hk]; destruct v; try apply Hk;
        apply safe_mk_err0; auto).
   Qed.
@@ -596,7 +611,7 @@ Lemma clone_exists_tail : forall (frepr : fl -> str) f0 (ws dws : path) (i : str
   (forall p, get f0 p <> None -> get f0 (parent p) = Some Dir) ->
   get f0 (dws ++ [i]) <> None -> exists_r rs = true ->
   safeK (Inv0 f0)
-    (copytree_p 6 (ws ++ [i]) (dws ++ [i]) (fun r =>
+    (copytree_p 6 true (ws ++ [i]) (dws ++ [i]) (fun r =>
        match r with
        | FOk false => ret_res (inl tt)
        | FOk true => if exists_r rs then ret_res (inr (POs EIO)) else rmtree_ign 6 (dws ++ [i]) (ret_res (inr (POs EIO)))
